@@ -309,6 +309,21 @@ pub fn scenarios(tier: Tier) -> Vec<LinkScenario<fn() -> Box<dyn Probe>>> {
             probe: (|| Box::new(TimingProbe::new()) as Box<dyn Probe>) as fn() -> Box<dyn Probe>,
         });
     }
+    // messages submitted in different ticks, so that a retransmission of an older message shares a packet with a newer
+    // one while the message in between is not yet due (message ids in one packet are not consecutive)
+    for dir in 0..2usize {
+        let mut cfg = LinkCfg::base(&format!("one message at ticks 0, 1 and 3, dt=R/3 dir{}", dir), chans(), chans());
+        cfg.dt_ms = vec![r / 3];
+        cfg.horizon = 5;
+        cfg.tail = 11;
+        cfg.drains = vec![Drain::End];
+        cfg.fates = vec![Fate::Ok, Fate::Drop, Fate::Dup, Fate::Delay1, Fate::Delay2];
+        cfg.script = vec![Send::at(0, dir, 0, 1), Send::at(1, dir, 0, 2), Send::at(3, dir, 0, 3)];
+        out.push(LinkScenario {
+            cfg,
+            probe: (|| Box::new(TimingProbe::new()) as Box<dyn Probe>) as fn() -> Box<dyn Probe>,
+        });
+    }
     // link outage of 3.4 s at tick lengths that are not a divisor of the resend time: while nothing is acknowledged,
     // retransmissions stay at least a resend time apart also across the moment (3 s) at which the sent-packet
     // records of the first transmissions are written off as lost
